@@ -486,7 +486,7 @@ Section PathProofs.
       reflexivity.
     - inversion H; subst. rewrite activate_pending, activate_conds, add_all_app. reflexivity.
     - unfold slice in H. destruct (sliced p); [discriminate|].
-      destruct (get_related cond p vs) as [rel m']. inversion H; subst. reflexivity.
+      destruct (slice_loop _ _ _ _ _ _ _ _) as [[sl m']|]; [|discriminate]. inversion H; subst. reflexivity.
     - inversion H; subst. reflexivity.
   Qed.
 
@@ -595,10 +595,10 @@ Section PathProofs.
   Qed.
 
   (* slicing never changes `conditions` (hence never the query), only the solver *)
-  Lemma slice_conds : forall (p q : path) vs, slice cond p vs = Some q -> conditions q = conditions p.
+  Lemma slice_conds : forall (p q : path) vs, slice cond vars p vs = Some q -> conditions q = conditions p.
   Proof.
     intros p q vs H. unfold slice in H. destruct (sliced p); [discriminate|].
-    destruct (get_related cond p vs) as [rel m']. inversion H; reflexivity.
+    destruct (slice_loop _ _ _ _ _ _ _ _) as [[sl m']|]; [|discriminate]. inversion H; reflexivity.
   Qed.
 
   Lemma extend_path_conds : forall (p parent : path), conditions (extend_path cond p parent) = conditions parent.
@@ -656,7 +656,8 @@ Section PathProofs.
       unfold SmtTextModel.activate. cbn [solver conditions pending]. apply (Hext [c0]). exact Hin.
     - unfold branch in H. destruct (pending p); [|discriminate]. inversion H; subst q. exact Hin.
     - inversion H; subst q. unfold SmtTextModel.activate. cbn [solver conditions]. apply Hext. exact Hin.
-    - unfold slice in H. destruct (sliced p); [discriminate|]. destruct (get_related cond p vs) as [rel m'].
+    - unfold slice in H. destruct (sliced p); [discriminate|].
+      destruct (slice_loop _ _ _ _ _ _ _ _) as [[sl m']|]; [|discriminate].
       inversion H; subst q. exact Hin.
     - inversion H; subst q. unfold extend_path, empty_path, solver_additions. cbn [solver conditions].
       intros c Hc. apply in_app_or in Hc. destruct Hc as [Hc|Hc]; [left; apply in_or_app; right; exact Hc|].
@@ -716,7 +717,7 @@ Section PathProofs.
   Qed.
 End PathProofs.
 
-Lemma slicing_keeps_conditions : forall (cond : Type) (p q parent : path cond) vs,
-  (slice cond p vs = Some q -> conditions q = conditions p) /\
+Lemma slicing_keeps_conditions : forall (cond : Type) (vars : cond -> list Z) (p q parent : path cond) vs,
+  (slice cond vars p vs = Some q -> conditions q = conditions p) /\
   conditions (extend_path cond p parent) = conditions parent.
 Proof. intros. split; [apply slice_conds | apply extend_path_conds]. Qed.
